@@ -486,6 +486,17 @@ end
     fits the 4-byte prefix (`u32::try_from(..).expect(..)` cannot fire). -/
 theorem c26_default_max_fits_prefix : P2.Extracted.C26.defaultMaxFrameLen < 4294967296 := by decide
 
+/-- Tie to the source text: whether the model's `encode` accepts a message is, for payloads the
+    4-byte prefix can express, exactly the decision `rs2lean` regenerates from the current body
+    of `Codec::encode` (size check → `Err(TooLargeMessage)`, otherwise write and `Ok(())`). -/
+theorem c26_encode_check_is_source {M : Type} (max : Nat) (ser : M → List Nat) (m : M) (dst : List Nat)
+    (h32 : (ser m).length < 4294967296) :
+    (match encode max ser m dst with | .ok _ => true | .error _ => false)
+      = P2.Extracted.C26.encodeCheckT (ser m).length max := by
+  unfold encode P2.Extracted.C26.encodeCheckT
+  have h2 : ¬ ((ser m).length ≥ 4294967296) := by omega
+  by_cases h1 : (ser m).length > max <;> simp [h1, h2]
+
 /-! ## Non-vacuity -/
 -- two payloads, chunked so that the first length prefix is split, with an empty chunk, and the
 -- second frame arriving together with the tail of the first
